@@ -183,7 +183,7 @@ def configs(tier):
     # closure, metadata only
     for mode, closure, md in itertools.product(("unack", "ack"), (False, True), (False, True)):
         add(mode=mode, closure=closure, md_only=md, size=0 if md else 3, seg=2)
-    if tier == "thorough":
+    if True:  # both tiers (the whole product takes seconds)
         for L, crc, cks, mode, closure in itertools.product((1, 2, 3, 4), (False, True), ("crc32", "crc32c", "mod", "null"), ("unack", "ack"), (False, True)):
             for size in sizes_for(L):
                 add(seg=L, size=size, crc_flag=crc, cks=cks, mode=mode, closure=closure)
